@@ -90,7 +90,7 @@ FailedBag(o, ob, r) ==
     IF e.ok = "any" THEN Mk("frame", "frame_broken", keepf)
     ELSE IF e.ok = "no"
     THEN Mk("guard", "accepted_although_" \o e.why, ~okobs) \cup Mk("frame", "frame_broken_on_error", keepf)
-    ELSE IF ~okobs THEN Refused \cup Mk("frame", "frame_broken_on_error", keepf)
+    ELSE IF ~okobs THEN (IF e.ok = "maybe" THEN {} ELSE Refused) \cup Mk("frame", "frame_broken_on_error", keepf)
     ELSE Mk("value", "result_wrong", r.out.res = e.res)
          \cup Mk("value", "state_wrong", \A i \in tgt \cup (IF Has(c, "new") THEN {c.new} ELSE {}) :
                                               i \in DOMAIN post /\ post[i] = e.objs[i])
